@@ -31,6 +31,7 @@ type caseRec struct {
 	Pad      int      `json:"pad"`
 	History  []string `json:"history"`
 	Flush    uint64   `json:"flush_mask"`
+	InBlock  uint64   `json:"inblock_flush_mask,omitempty"`
 	ResetTo  uint32   `json:"reset_to,omitempty"`
 	GCFirst  bool     `json:"gc_first,omitempty"`
 	Batches  int      `json:"batches"`
@@ -199,10 +200,14 @@ func trunc(s string) string {
 
 // runPersist executes history h with flush mask (bit k: flush after block k+1,
 // counting preamble blocks) and checks every crash point.
-func (e *env) runPersist(h []int, mask uint64, scen string) (crashes int, rec *caseRec) {
+func (e *env) runPersist(h []int, mask uint64, scen string, inblock ...uint64) (crashes int, rec *caseRec) {
+	var inMask uint64
+	if len(inblock) > 0 {
+		inMask = inblock[0]
+	}
 	blocks, obs := e.sc.Blocks(h)
 	mk := func(i, n int, what string, diff []string) *caseRec {
-		return &caseRec{Scenario: scen, Family: e.sc.Fam.Name, Pad: e.sc.Pad, History: e.sc.Names(h), Flush: mask, Batches: n, Crash: i, What: what, Diff: diff}
+		return &caseRec{Scenario: scen, Family: e.sc.Fam.Name, Pad: e.sc.Pad, History: e.sc.Names(h), Flush: mask, InBlock: inMask, Batches: n, Crash: i, What: what, Diff: diff}
 	}
 	rs := chainx.NewRecStore(storage.NewMemoryStore())
 	var accepted []uint32 // height accepted when batch i was written
@@ -219,8 +224,22 @@ func (e *env) runPersist(h []int, mask uint64, scen string) (crashes int, rec *c
 	if err != nil {
 		return 0, mk(-1, 0, "start: "+err.Error(), nil)
 	}
+	var hookErr error
 	for k, bb := range blocks {
-		if err := n.AddBytes(bb); err != nil {
+		if inMask&(1<<uint(k)) != 0 {
+			// a flush landing inside AddBlock, between its header part and the block itself
+			n.BC.VerifSetPointHook(func(int) {
+				if err := n.BC.VerifPersist(); err != nil {
+					hookErr = err
+				}
+			})
+		}
+		err := n.AddBytes(bb)
+		n.BC.VerifSetPointHook(nil)
+		if err == nil {
+			err = hookErr
+		}
+		if err != nil {
 			n.Close()
 			return 0, mk(-1, 0, fmt.Sprintf("block %d rejected: %v", k+1, err), nil)
 		}
@@ -407,6 +426,7 @@ func TestCheck(t *testing.T) {
 		p       plan
 		h       []int
 		mask    uint64
+		inblock uint64
 		to      uint32
 		gcFirst bool
 	}
@@ -447,6 +467,15 @@ func TestCheck(t *testing.T) {
 				for _, m := range masks {
 					jobs = append(jobs, job{p: p, h: h, mask: m})
 				}
+				if p.kind == "persist" {
+					// flushes landing INSIDE AddBlock (after the header part) of each history
+					// block and of the last preamble block, alone and on top of boundary flushes
+					for k := nPre - 1; k < total; k++ {
+						jobs = append(jobs, job{p: p, h: h, inblock: 1 << uint(k)})
+						jobs = append(jobs, job{p: p, h: h, mask: all, inblock: 1 << uint(k)})
+					}
+					jobs = append(jobs, job{p: p, h: h, inblock: all})
+				}
 			}
 		}
 	}
@@ -458,18 +487,18 @@ func TestCheck(t *testing.T) {
 		if j.p.kind == "reset" {
 			c, rec = j.p.e.runReset(j.h, j.to, j.gcFirst)
 		} else {
-			c, rec = j.p.e.runPersist(j.h, j.mask, j.p.kind)
+			c, rec = j.p.e.runPersist(j.h, j.mask, j.p.kind, j.inblock)
 		}
 		crashes.Add(c)
 		runs.Inc()
-		sets.Add(fmt.Sprintf("%s/%s/%v/%x/%d/%v", j.p.kind, j.p.e.sc.Fam.Name, j.h, j.mask, j.to, j.gcFirst))
+		sets.Add(fmt.Sprintf("%s/%s/%v/%x/%x/%d/%v", j.p.kind, j.p.e.sc.Fam.Name, j.h, j.mask, j.inblock, j.to, j.gcFirst))
 		if rec != nil {
 			r.Outcome(j.p.kind + ":violation")
 			what := rec.What
 			if len(what) > 40 {
 				what = what[:40]
 			}
-			r.Violation(fmt.Sprintf("%s:%s:%s:%s:f%x:to%d:gcfirst=%v:crash%d/%d", rec.Scenario, what, rec.Family, strings.Join(rec.History, ","), rec.Flush, rec.ResetTo, rec.GCFirst, rec.Crash, rec.Batches), rec)
+			r.Violation(fmt.Sprintf("%s:%s:%s:%s:f%x:to%d:gcfirst=%v:crash%d/%d", rec.Scenario, what, rec.Family, strings.Join(rec.History, ",")+fmt.Sprintf(":in%x", rec.InBlock), rec.Flush, rec.ResetTo, rec.GCFirst, rec.Crash, rec.Batches), rec)
 		} else {
 			r.Outcome(j.p.kind + ":all crash points consistent")
 			r.Sample(map[string]any{"scenario": j.p.kind, "family": j.p.e.sc.Fam.Name, "history": j.p.e.sc.Names(j.h), "flush_mask": j.mask, "reset_to": j.to, "gc_first": j.gcFirst, "crash_points": c})
@@ -482,7 +511,7 @@ func TestCheck(t *testing.T) {
 		"runs":                int(runs.Get()),
 		"block_alphabet":      names,
 		"history_depth":       depth,
-		"scenarios":           "persist (flush schedules), gc (RemoveUntraceableBlocks, GC after every flush), reset (every target height, both orders of the persister/direct-deletion race)",
+		"scenarios":           "persist (flush schedules at block boundaries AND inside AddBlock after its header part, hook H5), gc (RemoveUntraceableBlocks, GC after every flush), reset (every target height, both orders of the persister/direct-deletion race)",
 	}, []string{
 		"one PutChangeSet / one SeekGC pass is atomic and durable (backend trusted, as the property states)",
 		"batches of the reset's background persister may merge differently from run to run (coarser merges only remove crash points); the order of the last stage batch and the direct deletion is forced both ways",
@@ -528,7 +557,7 @@ func replay(r *vk.Run) {
 		if c.Scenario == "reset" {
 			_, rec = e.runReset(h, c.ResetTo, c.GCFirst)
 		} else {
-			_, rec = e.runPersist(h, c.Flush, c.Scenario)
+			_, rec = e.runPersist(h, c.Flush, c.Scenario, c.InBlock)
 		}
 		if rec != nil {
 			fmt.Printf("replay %d: REPRODUCED crash %d/%d: %s %v\n", i, rec.Crash, rec.Batches, rec.What, rec.Diff)
